@@ -63,6 +63,8 @@ pub struct EnvFeatures {
     pub skipped_instr: u64,
     pub empty_steps: u64,
     pub overfull_steps: u64,
+    /// batches of exactly step-size instructions
+    pub full_steps: u64,
     pub max_batch: usize,
     pub order_sensitive_batches: u64,
     pub same_order_multi_instr: u64,
@@ -253,6 +255,9 @@ fn run_inner(case: &EnvCase, orc: EnvOracles, prop: &str, feat: &mut EnvFeatures
     let mut trading = case.trading;
     let mut crossed_off = false;
     let mut reenabled_after_cross = false;
+    // once a step carried more instructions than time units (only the harness's own drain steps can, outside
+    // C05's overfull cases), its timestamps run into the following steps' windows: window clauses are off
+    let mut ever_overfull = false;
     let mut budget = vec![[u32::MAX as u64 - 1; 2]; n];
     let fail = |sig: &str, step: usize, msg: String| Failure::new(prop, sig, format!("step {}: {}", step, msg));
 
@@ -478,6 +483,10 @@ fn run_inner(case: &EnvCase, orc: EnvOracles, prop: &str, feat: &mut EnvFeatures
         let overfull = nb as u64 > case.step_size;
         if overfull {
             feat.overfull_steps += 1;
+            ever_overfull = true;
+        }
+        if nb as u64 == case.step_size {
+            feat.full_steps += 1;
         }
         let trades_before: Vec<usize> = (0..n).map(|a| env.book(a).n_trades()).collect();
         let pre_books: Vec<Obs> = if orc.trading || orc.audits { (0..n).map(|a| capture(env.book(a))).collect() } else { vec![] };
@@ -531,7 +540,7 @@ fn run_inner(case: &EnvCase, orc: EnvOracles, prop: &str, feat: &mut EnvFeatures
                     let sig = if orc.records { "C11 per-step traded volume differs from the step's trades" } else { "C08 step's traded volume does not count exactly that step's trades" };
                     return Err(fail(sig, si, format!("asset {}: recorded {:?}, live counter {}, logged in this step {}", a, s.trade_vols.last(), post_books[a].trade_vol, sum)));
                 }
-                if !overfull {
+                if !ever_overfull {
                     for t in new_tr {
                         if t.t < start || t.t >= start + (nb as u64).max(1) {
                             return Err(fail("C08 trade stamped outside start..start+n", si, format!("asset {}: {:?}, start {}, batch {}", a, t, start, nb)));
@@ -749,7 +758,7 @@ fn run_inner(case: &EnvCase, orc: EnvOracles, prop: &str, feat: &mut EnvFeatures
                     return Err(fail("C11 earlier recorded entries changed", si, format!("asset {}", a)));
                 }
                 // traded volume of the step = trades time-stamped within the step
-                if !overfull {
+                if !ever_overfull {
                     let win: u64 = post_books[a].trades.iter().filter(|t| t.t >= start && t.t < start + case.step_size).map(|t| t.vol as u64).sum();
                     if s.trade_vols[k - 1] as u64 != win {
                         return Err(fail("C11 per-step traded volume differs from the trades time-stamped within the step", si, format!("asset {}: recorded {}, trades in [{}, {}) sum to {}", a, s.trade_vols[k - 1], start, start + case.step_size, win)));
